@@ -140,9 +140,12 @@ var tokRe = regexp.MustCompile(`[A-Za-z][A-Za-z0-9]*`)
 
 // flat is the left-to-right sequence of token and structure names of a term
 // (bindings, braces and labels erased).
+func Flat(term string) string { return flat(term) }
+
 func flat(term string) string {
 	t := regexp.MustCompile(`@\[[^\]]*\]|@[a-z?][0-9]*|\[[^\]]*\]|[0-9]+:|d:`).ReplaceAllString(term, " ")
-	return strings.Join(tokRe.FindAllString(strings.ReplaceAll(t, "Ret", ""), -1), " ")
+	t = strings.NewReplacer("Ret", "", "Star", "Loop", "Alt", "").Replace(t)
+	return strings.Join(tokRe.FindAllString(t, -1), " ")
 }
 
 func trimRet(s string) string {
@@ -439,151 +442,6 @@ func clauseFor(info *types.Info, sw *ast.SwitchStmt, val int64) *ast.CaseClause 
 	return nil
 }
 
-func r4(c *core.Ctx, nbe *core.Fn, sw *ast.SwitchStmt) {
-	info := nbe.Pkg.TypesInfo
-	body := nbe.Decl.Body
-	// entry allocated once before the loop
-	var entryObj types.Object
-	var loop *ast.ForStmt
-	for _, s := range body.List {
-		switch x := s.(type) {
-		case *ast.DeclStmt, *ast.AssignStmt:
-			if n, b := pat.Stmt("_e = &BinEntry{}").Find(info, x, nil); n != nil && loop == nil {
-				entryObj = core.ObjOf(info, b["_e"].(ast.Expr))
-			}
-			if gd, ok := s.(*ast.DeclStmt); ok && loop == nil {
-				for _, sp := range gd.Decl.(*ast.GenDecl).Specs {
-					if vs, ok := sp.(*ast.ValueSpec); ok && len(vs.Values) == 1 && len(vs.Names) == 1 {
-						if pat.Expr("&BinEntry{}").Match(info, vs.Values[0], nil) != nil {
-							entryObj = info.Defs[vs.Names[0]]
-						}
-					}
-				}
-			}
-		case *ast.ForStmt:
-			if loop == nil {
-				loop = x
-			}
-		}
-	}
-	if entryObj == nil || loop == nil {
-		c.Check("R4.bind", "entry/allocated-before-loop", nbe.Decl.Pos(), false,
-			"the entry object must be allocated once before the opcode loop: expiry/idle/freq opcodes precede the key record and have to survive until it")
-		return
-	}
-	c.Okf("R4.bind", "entry/allocated-before-loop", nbe.Decl.Pos(), "entry allocated before the loop")
-	reassigned := false
-	core.Inspect(loop, func(m ast.Node) bool {
-		if as, ok := m.(*ast.AssignStmt); ok {
-			for _, l := range as.Lhs {
-				if id, ok := l.(*ast.Ident); ok && (info.Uses[id] == entryObj || info.Defs[id] != nil && id.Name == entryObj.Name() && as.Tok == token.DEFINE) {
-					reassigned = true
-				}
-			}
-		}
-		return true
-	})
-	c.Check("R4.bind", "entry/not-reallocated", loop.Pos(), !reassigned, "the entry is not re-allocated or shadowed inside the opcode loop (metadata read by earlier opcodes would be lost)")
-
-	eb := pat.Binds{"_e": &ast.Ident{Name: entryObj.Name()}}
-	_ = eb
-	type bind struct {
-		op    int64
-		key   string
-		read  string
-		store string
-		why   string
-	}
-	for _, b := range []bind{
-		{0xfc, "expire-ms", "_v, _err = _l.readUint64()", "_e.ExpireAt = _v", "EXPIRETIME_MS value is the absolute expiry in milliseconds, stored unscaled"},
-		{0xfd, "expire-s", "_v, _err = _l.readUint32()", "_e.ExpireAt = uint64(_v) * 1000", "EXPIRETIME value is in seconds and must be scaled by 1000"},
-		{0xfe, "select-db", "_v, _err = _l.ReadLength()", "_l.db = _v", "SELECTDB sets the database of all following keys"},
-		{0xf8, "idle", "_v, _err = _l.ReadLength()", "_e.IdleTime = _v", "IDLE is the LRU hint of the next key"},
-		{0xf9, "freq", "_v, _err = _l.readUint8()", "_e.Freq = _v", "FREQ is the LFU hint of the next key"},
-	} {
-		cc := clauseFor(info, sw, b.op)
-		if cc == nil {
-			continue
-		}
-		blk := &ast.BlockStmt{List: cc.Body}
-		rd, bb := pat.Stmt(b.read).Find(info, blk, nil)
-		ok := false
-		if rd != nil {
-			st, b2 := pat.Stmt(b.store).Find(info, blk, bb)
-			ok = st != nil
-			if ok && strings.HasPrefix(b.store, "_e.") {
-				ok = core.ObjOf(info, b2["_e"].(ast.Expr)) == entryObj
-			}
-		}
-		c.Check("R4.bind", b.key, cc.Pos(), ok, b.why+" (`"+strings.ReplaceAll(b.store, "_", "")+"`)")
-	}
-	// EOF
-	if cc := clauseFor(info, sw, 0xff); cc != nil {
-		n, _ := pat.Stmt("return nil, nil").Find(info, &ast.BlockStmt{List: cc.Body}, nil)
-		c.Check("R4.bind", "eof", cc.Pos(), n != nil, "EOF ends the stream with (nil, nil) so that the caller verifies the footer and stops")
-	}
-	// key record
-	if cc := clauseFor(info, sw, -1); cc != nil {
-		blk := &ast.BlockStmt{List: cc.Body}
-		rd, bb := pat.Stmt("_val, _err = _l.readObjectValue(_t, _l2)").Find(info, blk, nil)
-		if rd == nil {
-			c.Undecidedf("R4.bind", "key-record/value-read", cc.Pos(), "cannot find `val, err := l.readObjectValue(t, l)` in the key-record case")
-		} else {
-			c.Check("R4.bind", "key-record/type-arg", rd.Pos(), pat.Same(info, bb["_t"], sw.Tag) && pat.Same(info, bb["_l"], bb["_l2"]),
-				"the value is parsed with the type byte that was dispatched on, from this loader")
-			for _, f := range []struct{ key, p, why string }{
-				{"db", "_e.DB = _l.db", "the entry carries the database selected by the last SELECTDB"},
-				{"type", "_e.Type = _t", "the entry carries the value type"},
-				{"value", "_e.Value = createValueDump(_t, _val)", "the payload is the captured value wrapped as a DUMP payload of the same type"},
-			} {
-				n, b2 := pat.Stmt(f.p).Find(info, blk, bb)
-				ok := n != nil && core.ObjOf(info, b2["_e"].(ast.Expr)) == entryObj
-				c.Check("R4.bind", "key-record/"+f.key, cc.Pos(), ok, f.why)
-			}
-			// key: from ReadString on first visit
-			kn, kb := pat.Stmt("_e.Key = _key").Find(info, blk, bb)
-			okKey := false
-			if kn != nil && core.ObjOf(info, kb["_e"].(ast.Expr)) == entryObj {
-				if rk, rb := pat.Stmt("_rkey, _err2 = _l.ReadString()").Find(info, blk, pat.Binds{"_l": bb["_l"]}); rk != nil {
-					a1, _ := pat.Stmt("_key = _rkey").Find(info, blk, pat.Binds{"_key": kb["_key"], "_rkey": rb["_rkey"]})
-					okKey = a1 != nil || pat.Same(info, kb["_key"], rb["_rkey"])
-				}
-			}
-			c.Check("R4.bind", "key-record/key", cc.Pos(), okKey, "the entry's key is the string read right after the type byte")
-			ret, _ := pat.Stmt("return _e, nil").Find(info, blk, pat.Binds{"_e": kb["_e"]})
-			c.Check("R4.bind", "key-record/returns-entry", cc.Pos(), ret != nil, "the key record is returned to the caller (one record per stored key)")
-		}
-	}
-	// lua aux
-	if cc := clauseFor(info, sw, 0xfa); cc != nil {
-		blk := &ast.BlockStmt{List: cc.Body}
-		k, kb := pat.Stmt("_k, _ = _l.ReadString()").Find(info, blk, nil)
-		ok := false
-		if k != nil {
-			var v ast.Node
-			var vb pat.Binds
-			for _, n := range pat.Stmt("_v, _ = _l.ReadString()").FindAll(info, blk, pat.Binds{"_l": kb["_l"]}) {
-				if n != k {
-					v = n
-					vb = pat.Stmt("_v, _ = _l.ReadString()").Match(info, n, pat.Binds{"_l": kb["_l"]})
-				}
-			}
-			if v != nil {
-				ifs := findIf(info, blk, pat.Expr(`string(_k) == "lua"`), kb)
-				if ifs != nil {
-					b3 := pat.Binds{"_k": kb["_k"], "_v": vb["_v"]}
-					n1, _ := pat.Stmt("_e.Key = _k").Find(info, ifs.Body, b3)
-					n2, _ := pat.Stmt("_e.Value = _v").Find(info, ifs.Body, b3)
-					n3, _ := pat.Stmt("_e.Type = _t").Find(info, ifs.Body, pat.Binds{"_t": sw.Tag})
-					n4, _ := pat.Stmt("return _e, nil").Find(info, ifs.Body, nil)
-					ok = n1 != nil && n2 != nil && n3 != nil && n4 != nil
-				}
-			}
-		}
-		c.Check("R4.bind", "lua-aux", cc.Pos(), ok, "an AUX field named \"lua\" is delivered as a script record carrying key, script body and the AUX type")
-	}
-}
-
 func findIf(info *types.Info, root ast.Node, cond *pat.Pattern, b pat.Binds) *ast.IfStmt {
 	var hit *ast.IfStmt
 	core.Inspect(root, func(n ast.Node) bool {
@@ -711,36 +569,7 @@ func r5(c *core.Ctx, rov, nbe *core.Fn) {
 	z, _ := pat.Stmt("_lr.lastReadCount = 0").Find(info, blk, nil)
 	c.Check("R5.chunk", "hash/count-reset", cc.Pos(), z != nil, "lastReadCount restarts at 0 for every record")
 
-	// NextBinEntry continuation
-	ni := nbe.Pkg.TypesInfo
-	cont := findIf(ni, nbe.Decl.Body, pat.Expr("_l.remainMember != 0"), nil)
-	okT := false
-	if cont != nil {
-		n, _ := pat.Stmt("_t = _l.lastEntry.Type").Find(ni, cont.Body, nil)
-		okT = n != nil
-	}
-	c.Check("R5.chunk", "continuation/type", nbe.Decl.Pos(), okT, "while a chunked hash is pending the type comes from the previous entry (no type byte is in the stream)")
-	kf := findIf(ni, nbe.Decl.Body, pat.Expr("_l.remainMember == 0"), nil)
-	okK, okN := false, false
-	if kf != nil && kf.Else != nil {
-		n, _ := pat.Stmt("_key = _l.lastEntry.Key").Find(ni, kf.Else, nil)
-		okK = n != nil
-		n2, _ := pat.Stmt("_e.NeedReadLen = 1").Find(ni, kf.Body, nil)
-		n3, _ := pat.Stmt("_e.NeedReadLen = 1").Find(ni, kf.Else, nil)
-		okN = n2 != nil && n3 == nil
-	}
-	c.Check("R5.chunk", "continuation/key", nbe.Decl.Pos(), okK, "continuation records carry the key of the previous entry")
-	c.Check("R5.chunk", "continuation/need-read-len", nbe.Decl.Pos(), okN, "NeedReadLen = 1 marks exactly the first record of a key (its payload starts with the element count)")
-	le, _ := pat.Stmt("_l.lastEntry = _e").Find(ni, nbe.Decl.Body, nil)
-	c.Check("R5.chunk", "continuation/remember-entry", nbe.Decl.Pos(), le != nil, "the entry is remembered for a possible continuation")
-	rmc := findIf(ni, nbe.Decl.Body, pat.Expr("_l.lastReadCount == _l.totMemberCount"), nil)
-	okR := false
-	if rmc != nil && rmc.Else != nil {
-		n1, _ := pat.Stmt("_e.RealMemberCount = 0").Find(ni, rmc.Body, nil)
-		n2, _ := pat.Stmt("_e.RealMemberCount = _l.lastReadCount").Find(ni, rmc.Else, nil)
-		okR = n1 != nil && n2 != nil
-	}
-	c.Check("R5.chunk", "continuation/real-member-count", nbe.Decl.Pos(), okR, "RealMemberCount is 0 for a complete value and the number of pairs in this record for a chunk")
+	r5cont(c, nbe)
 }
 
 func isTopLevel(b *ast.BlockStmt, n ast.Node) bool {
@@ -779,23 +608,7 @@ func r6(c *core.Ctx) {
 			sn := sum[0].Node()
 			ok, w := g.Dominated(rd[0], func(n ast.Node) bool { return n == sn })
 			c.Check("R6.crc", "Footer/sum-before-trailer", rd[0].Node().Pos(), ok, "the digest is taken before the 8 trailer bytes are read (they pass through the same tee and would otherwise be part of the sum)", w...)
-			// mismatch -> error
-			var sumVar, rdVar ast.Node
-			if _, b := pat.Stmt("_a = _l.crc.Sum64()").Find(info, fn.Decl.Body, nil); b != nil {
-				sumVar = b["_a"]
-			}
-			if _, b := pat.Stmt("_b, _err = _l.readUint64()").Find(info, fn.Decl.Body, nil); b != nil {
-				rdVar = b["_b"]
-			}
-			okCmp := false
-			if sumVar != nil && rdVar != nil {
-				if ifs := findIf(info, fn.Decl.Body, pat.Expr("_a != _b"), pat.Binds{"_a": sumVar, "_b": rdVar}); ifs != nil && len(ifs.Body.List) > 0 {
-					if r, ok := ifs.Body.List[len(ifs.Body.List)-1].(*ast.ReturnStmt); ok {
-						okCmp = cfgq.ClassifyReturn(info, fn.Decl.Body, r) == cfgq.RetErr
-					}
-				}
-			}
-			c.Check("R6.crc", "Footer/mismatch-is-error", fn.Decl.Pos(), okCmp, "computed != stored checksum leads to an error return (a corrupted RDB is rejected)")
+			// (the comparison itself is checked by X1.footer in rules/all)
 		}
 	}
 	if fn := c.Func("redis-shake/common", "", "NewRDBLoader"); fn != nil {
@@ -823,7 +636,7 @@ func r6(c *core.Ctx) {
 		// every normal exit passes Footer unless FromVersion <= 2
 		w2 := g.Path(cfgq.Query{From: g.Entry(), Avoid: call("Footer"), TargetExit: cfgq.NormalExit,
 			AvoidEdge: func(b *cfg.Block, s int) bool {
-				return cfgq.EdgeEstablishes(b, s, func(f cfgq.Fact) bool {
+				return g.Establishes(b, s, func(f cfgq.Fact) bool {
 					return pat.Expr("rdb.FromVersion > 2").Match(info, f.Expr, nil) != nil && !f.Val
 				})
 			}})
@@ -838,7 +651,7 @@ func r6(c *core.Ctx) {
 			pt := p[0]
 			w := g.Path(cfgq.Query{From: pt, After: true, TargetExit: cfgq.NormalExit,
 				AvoidEdge: func(b *cfg.Block, s int) bool {
-					return cfgq.EdgeEstablishes(b, s, func(f cfgq.Fact) bool {
+					return g.Establishes(b, s, func(f cfgq.Fact) bool {
 						return pat.Expr("_err != nil").Match(info, f.Expr, nil) != nil && !f.Val || pat.Expr("_err == nil").Match(info, f.Expr, nil) != nil && f.Val
 					})
 				},
@@ -850,59 +663,6 @@ func r6(c *core.Ctx) {
 		snd, _ := pat.Stmt("_p <- _e").Find(info, lit.Body, nil)
 		c.Check("R6.crc", "NewRDBLoader/forwards-entry", lit.Pos(), snd != nil, "every non-nil entry is forwarded to the channel")
 	}
-}
-
-func r7(c *core.Ctx) {
-	fn := c.Func(pkg, "", "createValueDump")
-	if fn == nil {
-		return
-	}
-	info := fn.Pkg.TypesInfo
-	body := fn.Decl.Body
-	var params []*ast.Ident
-	for _, f := range fn.Decl.Type.Params.List {
-		params = append(params, f.Names...)
-	}
-	if len(params) != 2 {
-		c.Undecidedf("R7.dump", "createValueDump/params", fn.Decl.Pos(), "expected (t, val)")
-		return
-	}
-	b0 := pat.Binds{"_t": params[0], "_val": params[1]}
-	mw, b := pat.Stmt("_w = io.MultiWriter(&_b, _c)").Find(info, body, b0)
-	if mw == nil {
-		c.Failf("R7.dump", "createValueDump/multiwriter", fn.Decl.Pos(), "the payload writer must feed both the output buffer and the digest (io.MultiWriter(&b, c)); otherwise the checksum does not cover the bytes emitted")
-		return
-	}
-	dg, _ := pat.Stmt("_c = digest.New()").Find(info, body, b)
-	c.Check("R7.dump", "createValueDump/fresh-digest", fn.Decl.Pos(), dg != nil, "the digest is a fresh CRC-64")
-	steps := []struct{ key, p, why string }{
-		{"type-byte", "_w.Write([]byte{_t})", "first the value type byte"},
-		{"payload", "_w.Write(_val)", "then the captured value bytes unchanged"},
-		{"version", "binary.Write(_w, binary.LittleEndian, uint16(ToVersion))", "then the RDB version as little-endian 16 bit"},
-		{"crc", "binary.Write(_w, binary.LittleEndian, _c.Sum64())", "then the CRC-64 of everything before, little-endian"},
-	}
-	last := token.NoPos
-	for _, s := range steps {
-		n, _ := pat.Stmt(s.p).Find(info, body, b)
-		ok := n != nil && n.Pos() > last
-		if n != nil {
-			last = n.Pos()
-		}
-		c.Check("R7.dump", "createValueDump/"+s.key, fn.Decl.Pos(), ok, "DUMP payload layout: "+s.why+" (in this order)")
-	}
-	// exactly four writes through w
-	nw := 0
-	core.Inspect(body, func(m ast.Node) bool {
-		if call, ok := m.(*ast.CallExpr); ok {
-			if pat.Expr("_w.Write(_x)").Match(info, call, b) != nil || pat.Expr("binary.Write(_w, _o, _x)").Match(info, call, b) != nil {
-				nw++
-			}
-		}
-		return true
-	})
-	c.Check("R7.dump", "createValueDump/no-extra-writes", fn.Decl.Pos(), nw == 4, fmt.Sprintf("exactly the four parts are written (found %d writes)", nw))
-	r, _ := pat.Stmt("return _b.Bytes()").Find(info, body, b)
-	c.Check("R7.dump", "createValueDump/returns-buffer", fn.Decl.Pos(), r != nil, "the function returns the buffer that received the writes")
 }
 
 func r8(c *core.Ctx) {
